@@ -121,6 +121,55 @@ theorem evo_withShape (s : State) (dims : List Nat) (batch : Nat) (k : Shape →
   · exact Evo.refl _
   · exact hk _
 
+theorem evo_accum (s : State) (dst src : Nat) (sd ss : Shape) (K : List Int → List Int → List Int) :
+    Evo s.heap (accum s dst src sd ss K).1.heap := by
+  unfold accum
+  have hm := evo_mutableHandle s dst
+  dsimp only
+  split
+  · split
+    · exact hm.trans (evo_writeBuf _ _ _)
+    · exact hm
+  · exact hm
+
+theorem evo_bwOp (s : State) (gy gx : Nat) (ok : Shape → Shape → R Bool)
+    (K : Shape → Shape → List Int → List Int → List Int) : Evo s.heap (bwOp s gy gx ok K).1.heap := by
+  unfold bwOp
+  split
+  · split
+    · exact Evo.refl _
+    · split
+      · split <;> (try exact Evo.refl _)
+        exact evo_accum _ _ _ _ _ _
+      · exact Evo.refl _
+  · exact Evo.refl _
+
+theorem evo_abBwOp (g : Int → Int → Int) (s : State) (gy ga gb : Nat) : Evo s.heap (abBwOp g s gy ga gb).1.heap := by
+  unfold abBwOp
+  split
+  · split
+    · exact Evo.refl _
+    · split
+      · split <;> (try exact Evo.refl _)
+        dsimp only
+        split
+        · exact (evo_accum _ _ _ _ _ _).trans (evo_accum _ _ _ _ _ _)
+        · exact evo_accum _ _ _ _ _ _
+      · exact Evo.refl _
+  · exact Evo.refl _
+
+theorem evo_freshOp (s : State) (h g : Nat) (rule : Shape → R Shape) : Evo s.heap (freshOp s h g rule).1.heap := by
+  unfold freshOp
+  split
+  · exact Evo.refl _
+  · exact Evo.refl _
+  · split
+    · exact Evo.refl _
+    · exact Evo.refl _
+    · split
+      · exact evo_allocInto _ _ _ _
+      · exact Evo.refl _
+
 theorem evo_step (s : State) (op : Op) : Evo s.heap (step s op).1.heap := by
   cases op with
   | new h dims batch vals =>
@@ -207,5 +256,41 @@ theorem evo_step (s : State) (op : Op) : Evo s.heap (step s op).1.heap := by
     exact (evo_replace _ _ _).trans (evo_replace _ _ _)
   | live => exact Evo.refl _
   | readall => simp only [step]; split <;> exact Evo.refl _
+  | diadd h g => exact evo_inplace2 _ _ _ _
+  | disub h g => exact evo_inplace2 _ _ _ _
+  | dimul h k =>
+    simp only [step]
+    split
+    · exact Evo.refl _
+    · exact Evo.refl _
+    · exact evo_inplace1 _ _ _
+  | dsliceBw gy dim off gx => exact evo_bwOp _ _ _ _ _
+  | dpickBw gy dim ids gx => exact evo_bwOp _ _ _ _ _
+  | dflipBw gy dim gx => exact evo_bwOp _ _ _ _ _
+  | dtransposeBw gy gx => exact evo_bwOp _ _ _ _ _
+  | daddBw gy ga gb => exact evo_abBwOp _ _ _ _ _
+  | dsubBw gy ga gb => exact evo_abBwOp _ _ _ _ _
+  | piaddGrad p g =>
+    simp only [step]
+    split
+    · exact Evo.refl _
+    · split
+      · exact evo_inplace2 _ _ _ _
+      · exact Evo.refl _
+  | fcopy h g => exact evo_freshOp _ _ _ _
+  | fpositive h g =>
+    simp only [step]
+    split
+    · exact Evo.refl _
+    · exact Evo.refl _
+    · exact evo_replace _ _ _
+  | fconcat1 h g dim => exact evo_freshOp _ _ _ _
+  | fbconcat1 h g => exact evo_freshOp _ _ _ _
+  | probe fn h =>
+    simp only [step]
+    split
+    · exact Evo.refl _
+    · exact Evo.refl _
+    · split <;> exact Evo.refl _
 
 end Primitiv.Cow
